@@ -18,6 +18,7 @@ mod rng;
 mod snippet;
 
 mod c01;
+mod c02;
 mod c03;
 mod c04;
 mod c05;
@@ -98,6 +99,7 @@ macro_rules! scn_tr {
 fn scenarios(property: &str) -> Option<Vec<Scenario>> {
     Some(match property {
         "C01" => c01::scenarios(),
+        "C02" => c02::scenarios(),
         "C03" => c03::scenarios(),
         "C04" => c04::scenarios(),
         "C05" => c05::scenarios(),
@@ -120,8 +122,8 @@ fn scenarios(property: &str) -> Option<Vec<Scenario>> {
     })
 }
 
-const PROPERTIES: [&str; 19] = [
-    "C01", "C03", "C04", "C05", "C06", "C07", "C08", "C09", "C10", "C11", "C12", "C13", "C14", "C15", "C16",
+const PROPERTIES: [&str; 20] = [
+    "C01", "C02", "C03", "C04", "C05", "C06", "C07", "C08", "C09", "C10", "C11", "C12", "C13", "C14", "C15", "C16",
     "C17", "C18", "C19", "C20",
 ];
 
